@@ -115,7 +115,7 @@ Proof.
   destruct (nth_error (prods s) i) as [p|] eqn:Hn; [|discriminate].
   destruct (pp p) eqn:Hp.
   - (* PSet *)
-    assert (Hw : forall c, at_write (with_pp p c) = at_write p \/ True) by auto.
+    destruct (pk p); [discriminate|].
     destruct (stopped s); inversion H; subst; clear H;
       (constructor; simpl; auto;
        pose proof (count_w_set_nth i (with_pp p (PLoad (if registered s then 0 else 1))) p _ Hn) as C1;
@@ -156,8 +156,8 @@ Proof.
         - repeat split; auto; lia.
         - destruct (Hr eq_refl) as [_ He]. lia. }
       destruct Hw as (W & Htk & He).
-      constructor; simpl; try discriminate; auto.
-      * Show. intros _. rewrite W, Htk, He. reflexivity.
+      constructor; simpl; try (intros; congruence).
+      * intros _. rewrite W, Htk, He. reflexivity.
       * intros Hl. rewrite Hl in *. destruct (Hr eq_refl). lia.
       * destruct (loop s); try discriminate; lia.
 Qed.
@@ -214,7 +214,6 @@ Proof.
     destruct (stack s) eqn:Hs; inversion H; subst; clear H.
     + constructor; simpl; try discriminate; auto.
       * intros _. repeat split; auto; lia.
-      * lia.
     + constructor; simpl; try discriminate; try congruence; auto.
   - (* LXchg *)
     specialize (Hact ltac:(discriminate)). specialize (Ha Hact). simpl in Ha.
@@ -238,7 +237,6 @@ Proof.
     inversion H; subst; clear H.
     constructor; simpl; try discriminate; try congruence; auto.
     + intros _. lia.
-    + lia.
   - (* LRet *)
     specialize (Hact ltac:(discriminate)). specialize (Ha Hact). simpl in Ha.
     inversion H; subst; clear H. constructor; simpl; try discriminate; try congruence; auto.
@@ -282,3 +280,423 @@ Proof.
   - rewrite (Ha eq_refl). destruct (waiting (loop s)); lia.
 Qed.
 
+(* ---- invariant 2: the queue ---------------------------------------------------------------------- *)
+Definition nidx (c : ppc) : nat :=
+  match c with PSet => 0 | PLoad j => j | PCas j _ => j | PWrite j => S j end.
+
+Definition pend_ok (s : st) : Prop :=
+  match loop s with
+  | LExec => exists p j r, pending s = IWork p j :: r
+  | _ => pending s = [] end.
+
+Record InvQ (s : st) : Prop := {
+  q_inact : inactive s = true -> stack s = [];
+  q_fifo : enq s = consumed s ++ pending s ++ rev (stack s);
+  q_pend : pend_ok s;
+  q_stop : should_stop s = true <-> In IStop (consumed s);
+  q_stoploop : should_stop s = true -> loop s = LExec \/ loop s = LRet \/ loop s = LDone;
+  q_ret : loop s = LRet \/ loop s = LDone -> should_stop s = true;
+  q_nodup : NoDup (filter is_work (enq s));
+  q_own : forall q j, In (IWork q j) (enq s) ->
+          exists i p, q = S i /\ nth_error (prods s) i = Some p /\ pk p = KProd /\ j < nidx (pp p)
+}.
+
+Lemma invQ_init counts nstop pre : InvQ (init counts nstop pre).
+Proof.
+  constructor; simpl; auto; try discriminate.
+  - reflexivity.
+  - split; [discriminate|tauto].
+  - intros [H|H]; discriminate.
+  - constructor.
+  - tauto.
+Qed.
+
+(* q_own survives an update of producer i that keeps its kind and does not lower its index *)
+Lemma own_set_prod (l : list prod) (en : list item) i p c :
+  nth_error l i = Some p -> nidx (pp p) <= nidx c ->
+  (forall q j, In (IWork q j) en ->
+     exists i p, q = S i /\ nth_error l i = Some p /\ pk p = KProd /\ j < nidx (pp p)) ->
+  forall q j, In (IWork q j) en ->
+     exists i0 p0, q = S i0 /\ nth_error (set_nth i (with_pp p c) l) i0 = Some p0 /\ pk p0 = KProd /\ j < nidx (pp p0).
+Proof.
+  intros Hn Hle H q j Hin. destruct (H q j Hin) as (i0 & p0 & -> & Hn0 & Hk & Hj).
+  destruct (Nat.eq_dec i i0) as [<-|Hne].
+  - rewrite Hn in Hn0. inversion Hn0; subst p0. exists i, (with_pp p c). repeat split; auto.
+    + eapply nth_set_nth_eq; eauto.
+    + simpl. lia.
+  - exists i0, p0. repeat split; auto. rewrite nth_set_nth_neq; auto.
+Qed.
+
+Lemma step_prod_invQ i s s' evs : InvQ s -> step_prod i s = Some (s', evs) -> InvQ s'.
+Proof.
+  intros [Hia Hf Hp Hs Hsl Hr Hnd Ho] H. unfold step_prod in H. unfold pend_ok in Hp.
+  destruct (nth_error (prods s) i) as [p|] eqn:Hn; [|discriminate].
+  destruct (pp p) eqn:Hpp.
+  - destruct (pk p); [discriminate|].
+    destruct (stopped s); inversion H; subst; clear H; constructor; unfold pend_ok; simpl; auto;
+      eapply own_set_prod; eauto; rewrite Hpp; simpl; lia.
+  - destruct (Nat.ltb j (pn p)); inversion H; subst; clear H. constructor; unfold pend_ok; simpl; auto.
+    eapply own_set_prod; eauto. rewrite Hpp; simpl; lia.
+  - destruct (ptr_eqb (head_ptr s) old).
+    + unfold do_enqueue in H. inversion H; subst; clear H.
+      assert (Hfifo : enq s ++ [item_of i p j] =
+                      consumed s ++ pending s ++ rev (item_of i p j :: (if inactive s then [] else stack s))).
+      { simpl. rewrite Hf. destruct (inactive s) eqn:Hina.
+        - rewrite (Hia eq_refl). simpl. now rewrite !app_nil_r, <- !app_assoc.
+        - now rewrite <- !app_assoc. }
+      assert (Hown : forall q k, In (IWork q k) (enq s ++ [item_of i p j]) ->
+                exists i0 p0, q = S i0 /\
+                  nth_error (set_nth i (with_pp p (if inactive s then PWrite j else PLoad (S j))) (prods s)) i0 = Some p0 /\
+                  pk p0 = KProd /\ k < nidx (pp p0)).
+      { intros q k Hin. apply in_app_or in Hin. destruct Hin as [Hin|[Hin|[]]].
+        - eapply own_set_prod; eauto. rewrite Hpp. destruct (inactive s); simpl; lia.
+        - unfold item_of in Hin. destruct (pk p) eqn:Hk; [|discriminate]. inversion Hin; subst q k.
+          exists i, (with_pp p (if inactive s then PWrite j else PLoad (S j))). repeat split; auto.
+          + eapply nth_set_nth_eq; eauto.
+          + destruct (inactive s); simpl; lia. }
+      assert (Hnd' : NoDup (filter is_work (enq s ++ [item_of i p j]))).
+      { unfold item_of. destruct (pk p) eqn:Hk.
+        - rewrite filter_app. simpl. apply NoDup_snoc; auto.
+          rewrite filter_In. intros [Hin _]. destruct (Ho _ _ Hin) as (i0 & p0 & E & Hn0 & _ & Hlt).
+          inversion E; subst i0. rewrite Hn in Hn0. inversion Hn0; subst p0. rewrite Hpp in Hlt. simpl in Hlt. lia.
+        - rewrite filter_app_nil; auto. }
+      destruct (inactive s); constructor; unfold pend_ok; simpl; auto; discriminate.
+    + inversion H; subst; clear H. constructor; unfold pend_ok; simpl; auto.
+      eapply own_set_prod; eauto. rewrite Hpp; simpl; lia.
+  - inversion H; subst; clear H. constructor; unfold pend_ok; simpl; auto.
+    eapply own_set_prod; eauto. rewrite Hpp; simpl; lia.
+Qed.
+
+Definition is_nil {A} (l : list A) : bool := match l with [] => true | _ => false end.
+
+(* what continue_batch establishes: s holds the batch b (in place of its pending field) *)
+Lemma continue_batch_Q s b :
+  enq s = consumed s ++ b ++ rev (stack s) ->
+  (should_stop s = true <-> In IStop (consumed s)) ->
+  (should_stop s = true -> b <> [] \/ True) ->
+  let s' := continue_batch s b in
+  enq s' = enq s /\ stack s' = stack s /\ inactive s' = inactive s /\ prods s' = prods s /\
+  stopped s' = stopped s /\ registered s' = registered s /\ efd s' = efd s /\ tokens s' = tokens s /\
+  enq s' = consumed s' ++ pending s' ++ rev (stack s') /\
+  pend_ok s' /\
+  (should_stop s' = true <-> In IStop (consumed s')) /\
+  (should_stop s' = true -> loop s' = LExec \/ loop s' = LRet \/ loop s' = LDone) /\
+  (loop s' = LRet \/ loop s' = LDone -> should_stop s' = true) /\
+  (exists a, consumed s' = consumed s ++ a /\ forall x, In x a -> x = IStop) /\
+  (loop s' = LExec \/ loop s' = LRet \/ loop s' = LMarkLoad).
+Proof.
+  intros Hf Hs _. unfold continue_batch. destruct (strip_stops b) as [a r] eqn:E.
+  destruct (strip_stops_spec _ _ _ E) as (Hb & Ha & Hr). subst b.
+  set (stp := should_stop s || negb (is_nil a)).
+  assert (Hstp : stp = true <-> In IStop (consumed s ++ a)).
+  { unfold stp. rewrite in_app_iff, orb_true_iff, Hs. split; intros [H|H]; auto.
+    - destruct a as [|x a']; [discriminate|]. right. left. apply Ha. now left.
+    - destruct a; [destruct H|]. now right. }
+  assert (E1 : (should_stop s || negb match a with [] => true | _ :: _ => false end) = stp) by reflexivity.
+  rewrite E1.
+  destruct (work_head _ Hr) as [->|(p & j & r' & ->)]; unfold pend_ok; simpl.
+  - destruct stp eqn:Es; simpl; repeat split; auto; try tauto; try discriminate;
+      try (rewrite Hf, app_nil_r; now rewrite <- !app_assoc);
+      try (intros [H|H]; discriminate); try (exists a; split; auto).
+  - repeat split; auto; try tauto; try (intros [H|H]; discriminate);
+      try (rewrite Hf; now rewrite <- !app_assoc); try (exists a; split; now auto); try apply Hstp; eauto.
+Qed.
+
+Lemma step_loop_invQ s s' evs : InvQ s -> step_loop s = Some (s', evs) -> InvQ s'.
+Proof.
+  intros [Hia Hf Hp Hs Hsl Hr Hnd Ho] H. unfold step_loop in H. unfold pend_ok in Hp.
+  assert (Hns : should_stop s = true -> loop s = LExec \/ loop s = LRet \/ loop s = LDone) by exact Hsl.
+  destruct (loop s) eqn:Hl.
+  - destruct (stopped s); inversion H; subst; clear H; constructor; unfold pend_ok; simpl; auto;
+      try (intros [E|E]; discriminate); intros E; destruct (Hns E) as [X|[X|X]]; discriminate.
+  - inversion H; subst; clear H; constructor; unfold pend_ok; simpl; auto;
+      try (intros [E|E]; discriminate); intros E; destruct (Hns E) as [X|[X|X]]; discriminate.
+  - destruct (ptr_eqb (head_ptr s) old).
+    + unfold do_enqueue in H. inversion H; subst; clear H.
+      assert (Hfifo : enq s ++ [IStop] =
+                      consumed s ++ pending s ++ rev (IStop :: (if inactive s then [] else stack s))).
+      { simpl. rewrite Hf. destruct (inactive s) eqn:Hina.
+        - rewrite (Hia eq_refl). simpl. now rewrite !app_nil_r, <- !app_assoc.
+        - now rewrite <- !app_assoc. }
+      assert (Hown : forall q k, In (IWork q k) (enq s ++ [IStop]) ->
+                exists i0 p0, q = S i0 /\ nth_error (prods s) i0 = Some p0 /\ pk p0 = KProd /\ k < nidx (pp p0)).
+      { intros q k Hin. apply in_app_or in Hin. destruct Hin as [Hin|[Hin|[]]]; [auto|discriminate]. }
+      destruct (inactive s); constructor; unfold pend_ok; simpl; auto; try discriminate;
+        try (rewrite filter_app_nil; auto);
+        try (intros [E|E]; discriminate); intros E; destruct (Hns E) as [X|[X|X]]; discriminate.
+    + inversion H; subst; clear H; constructor; unfold pend_ok; simpl; auto;
+        try (intros [E|E]; discriminate); intros E; destruct (Hns E) as [X|[X|X]]; discriminate.
+  - inversion H; subst; clear H; constructor; unfold pend_ok; simpl; auto;
+      try (intros [E|E]; discriminate); intros E; destruct (Hns E) as [X|[X|X]]; discriminate.
+  - (* LExec *)
+    destruct Hp as (p & j & r & Hp). rewrite Hp in H. inversion H; subst; clear H.
+    match goal with |- InvQ (continue_batch ?x ?y) =>
+      destruct (continue_batch_Q x y) as (E1 & E2 & E3 & E4 & E5 & E6 & E7 & E8 & F1 & F2 & F3 & F4 & F5 & F6 & F7) end.
+    + simpl. rewrite Hf, Hp. now rewrite <- !app_assoc.
+    + simpl. rewrite Hs, in_app_iff. simpl. split; [tauto|]. intros [X|[X|[]]]; auto. discriminate.
+    + auto.
+    + constructor; auto; rewrite ?E1, ?E2, ?E3, ?E4; simpl; auto; try discriminate.
+  - (* LMarkLoad *)
+    inversion H; subst; clear H; constructor; unfold pend_ok; simpl; auto.
+    + destruct (stack s); auto.
+    + intros E; destruct (Hns E) as [X|[X|X]]; discriminate.
+    + destruct (stack s); intros [E|E]; discriminate.
+  - (* LMarkCas *)
+    destruct (stack s) eqn:Hst; inversion H; subst; clear H; constructor; unfold pend_ok; simpl; auto;
+      try (intros [E|E]; discriminate); try (intros E; destruct (Hns E) as [X|[X|X]]; discriminate).
+    all: rewrite ?Hst; auto.
+  - (* LXchg *)
+    inversion H; subst; clear H.
+    match goal with |- InvQ (continue_batch ?x ?y) =>
+      destruct (continue_batch_Q x y) as (E1 & E2 & E3 & E4 & E5 & E6 & E7 & E8 & F1 & F2 & F3 & F4 & F5 & F6 & F7) end.
+    + simpl. rewrite Hf, Hp. simpl. now rewrite app_nil_r.
+    + simpl. exact Hs.
+    + auto.
+    + constructor; auto; rewrite ?E1, ?E2, ?E3, ?E4; simpl; auto; try discriminate.
+  - (* LWait *)
+    destruct (Nat.ltb 0 (efd s)); [|discriminate].
+    inversion H; subst; clear H; constructor; unfold pend_ok; simpl; auto;
+      try (intros [E|E]; discriminate); intros E; destruct (Hns E) as [X|[X|X]]; discriminate.
+  - inversion H; subst; clear H; constructor; unfold pend_ok; simpl; auto;
+      try (intros [E|E]; discriminate); intros E; destruct (Hns E) as [X|[X|X]]; discriminate.
+  - (* LRet *)
+    inversion H; subst; clear H; constructor; unfold pend_ok; simpl; auto.
+  - discriminate.
+Qed.
+
+Lemma step_invQ t s s' evs : InvQ s -> step t s = Some (s', evs) -> InvQ s'.
+Proof. destruct t; simpl; [apply step_loop_invQ | apply step_prod_invQ]. Qed.
+
+Theorem invQ_reachable counts nstop pre (sched : list nat) :
+  InvQ (fst (run step sched (init counts nstop pre, []))).
+Proof.
+  apply (run_invariant_state _ _ _ step InvQ); [|apply invQ_init].
+  intros; eapply step_invQ; eauto.
+Qed.
+
+
+(* ---- invariant 3: the stop request ----------------------------------------------------------------- *)
+Definition in_pre (l : lpc) : Prop := l = LPreLoad \/ (exists o, l = LPreCas o) \/ l = LPreWrite.
+Definition stop_owed_by (p : prod) : Prop :=
+  pk p = KStopper /\ (pp p = PLoad 0 \/ exists o, pp p = PCas 0 o).
+Definition owed_loop (l : lpc) : Prop := l = LReg \/ l = LPreLoad \/ exists o, l = LPreCas o.
+
+Record InvS (s : st) : Prop := {
+  s_stopped : In IStop (enq s) -> stopped s = true;
+  s_reg : registered s = false -> stopped s = false -> loop s = LReg;
+  s_stopper : forall i p, nth_error (prods s) i = Some p -> pk p = KStopper -> pn p = 1;
+  s_kst : forall i p, nth_error (prods s) i = Some p -> pk p = KStopper -> pp p = PSet \/ stopped s = true;
+  s_pre : in_pre (loop s) -> stopped s = true;
+  s_owed : stopped s = true ->
+           In IStop (enq s) \/ owed_loop (loop s) \/
+           exists i p, nth_error (prods s) i = Some p /\ stop_owed_by p
+}.
+
+Lemma invS_init counts nstop pre : InvS (init counts nstop pre).
+Proof.
+  constructor; simpl; auto; try tauto.
+  - intros i p H Hk. pose proof (nth_error_In _ _ H) as H'. apply in_app_or in H'. destruct H' as [H'|H'].
+    + apply in_map_iff in H'. destruct H' as (n & <- & _). discriminate.
+    + apply repeat_spec in H'. subst. reflexivity.
+  - intros i p H Hk. pose proof (nth_error_In _ _ H) as H'. apply in_app_or in H'. destruct H' as [H'|H'].
+    + apply in_map_iff in H'. destruct H' as (n & <- & _). discriminate.
+    + apply repeat_spec in H'. subst. now left.
+  - intros [H|[[o H]|H]]; discriminate.
+  - intros _. right. left. now left.
+Qed.
+
+(* facts about all producers survive an update of producer i when the new value satisfies them *)
+Lemma all_set_prod (P : prod -> Prop) (l : list prod) i x i0 p0 :
+  nth_error (set_nth i x l) i0 = Some p0 ->
+  (forall i p, nth_error l i = Some p -> P p) -> P x -> P p0.
+Proof.
+  intros Hn H Hx. destruct (Nat.eq_dec i i0) as [<-|Hne].
+  - destruct (nth_error l i) eqn:E.
+    + rewrite (nth_set_nth_eq _ _ _ _ E) in Hn. now inversion Hn; subst.
+    + assert (nth_error (set_nth i x l) i = None).
+      { apply nth_error_None. rewrite set_nth_length. now apply nth_error_None. }
+      congruence.
+  - rewrite nth_set_nth_neq in Hn; eauto.
+Qed.
+
+Lemma owed_set_prod (l : list prod) i x y :
+  nth_error l i = Some y -> (stop_owed_by y -> stop_owed_by x) ->
+  (exists i p, nth_error l i = Some p /\ stop_owed_by p) ->
+  exists i0 p0, nth_error (set_nth i x l) i0 = Some p0 /\ stop_owed_by p0.
+Proof.
+  intros Hn Hxy (i0 & p0 & Hn0 & Ho). destruct (Nat.eq_dec i i0) as [<-|Hne].
+  - rewrite Hn in Hn0. inversion Hn0; subst p0. exists i, x. split; auto. eapply nth_set_nth_eq; eauto.
+  - exists i0, p0. split; auto. rewrite nth_set_nth_neq; auto.
+Qed.
+
+(* a step of producer i that moves its pc to c, leaves stopped/registered/loop alone and either
+   does not enqueue or enqueues item_of i p j *)
+Lemma prod_move_invS s i p c (en : list item) :
+  InvS s -> nth_error (prods s) i = Some p ->
+  (pk p = KStopper -> c = PSet \/ stopped s = true) ->
+  (en = enq s \/ en = enq s ++ [item_of i p (nidx (pp p))]) ->
+  (pk p = KStopper -> pp p = PSet -> en = enq s) ->
+  (stop_owed_by p -> stop_owed_by (with_pp p c) \/ In IStop en) ->
+  forall s', stopped s' = stopped s -> registered s' = registered s -> loop s' = loop s ->
+    prods s' = set_nth i (with_pp p c) (prods s) -> enq s' = en -> InvS s'.
+Proof.
+  intros [Hst Hrg Hsp Hk Hpre Hod] Hn Hc Hen Hset Hown s' E1 E2 E3 E4 E5.
+  constructor; rewrite ?E1, ?E2, ?E3, ?E4, ?E5; auto.
+  - intros Hin. destruct Hen as [->| ->]; auto. apply in_app_or in Hin. destruct Hin as [Hin|[Hin|[]]]; auto.
+    unfold item_of in Hin. destruct (pk p) eqn:Hkp; [discriminate|].
+    destruct (Hk _ _ Hn Hkp) as [X|X]; auto.
+    specialize (Hset eq_refl X). exfalso.
+    assert (length (enq s ++ [item_of i p (nidx (pp p))]) = length (enq s)) by (f_equal; exact Hset).
+    rewrite app_length in H. simpl in H. lia.
+  - intros i0 p0 Hn0. apply (all_set_prod (fun p => pk p = KStopper -> pn p = 1) _ _ _ _ _ Hn0); eauto.
+    simpl. intros Hkk. eapply Hsp; eauto.
+  - intros i0 p0 Hn0.
+    apply (all_set_prod (fun p => pk p = KStopper -> pp p = PSet \/ stopped s = true) _ _ _ _ _ Hn0); eauto.
+  - intros Hs. destruct (Hod Hs) as [X|[X|(i0 & p0 & Hn0 & Ho)]].
+    + left. destruct Hen as [->| ->]; auto. apply in_or_app. now left.
+    + right. now left.
+    + destruct (Nat.eq_dec i i0) as [<-|Hne].
+      * rewrite Hn in Hn0. inversion Hn0; subst p0. destruct (Hown Ho) as [Y|Y]; auto.
+        right. right. exists i, (with_pp p c). split; auto. eapply nth_set_nth_eq; eauto.
+      * right. right. exists i0, p0. split; auto. rewrite nth_set_nth_neq; auto.
+Qed.
+
+Lemma step_prod_invS i s s' evs : InvS s -> step_prod i s = Some (s', evs) -> InvS s'.
+Proof.
+  intros HI H. pose proof HI as [Hst Hrg Hsp Hk Hpre Hod]. unfold step_prod in H.
+  destruct (nth_error (prods s) i) as [p|] eqn:Hn; [|discriminate].
+  destruct (pp p) eqn:Hpp.
+  - (* PSet *)
+    destruct (pk p) eqn:Hkp; [discriminate|].
+    destruct (stopped s) eqn:Hstp; inversion H; subst; clear H.
+    + eapply (prod_move_invS s i p (PLoad 1) (enq s)); eauto.
+      intros [_ [X|[o X]]]; rewrite Hpp in X; discriminate.
+    + constructor; simpl; auto.
+      * Show. intros A B; discriminate.
+      * intros i0 p0 Hn0. apply (all_set_prod (fun p => pk p = KStopper -> pn p = 1) _ _ _ _ _ Hn0); eauto.
+        simpl. intros Hkk. eapply Hsp; eauto.
+      * intros i0 p0 Hn0 _. now right.
+      * intros _. destruct (registered s) eqn:Hr.
+        -- right. right. exists i, (with_pp p (PLoad 0)). split.
+           ++ eapply nth_set_nth_eq; eauto.
+           ++ split; simpl; auto.
+        -- right. left. left. auto.
+  - (* PLoad *)
+    destruct (Nat.ltb j (pn p)); inversion H; subst; clear H.
+    eapply (prod_move_invS s i p (PCas j (head_ptr s)) (enq s)); eauto.
+    + intros Hkp. destruct (Hk _ _ Hn Hkp) as [X|X]; [congruence|auto].
+    + intros [Hkp [X|[o X]]]; rewrite Hpp in X; inversion X; subst. left. split; simpl; eauto.
+  - (* PCas *)
+    destruct (ptr_eqb (head_ptr s) old).
+    + unfold do_enqueue in H. inversion H; subst; clear H.
+      eapply (prod_move_invS s i p (if inactive s then PWrite j else PLoad (S j)) (enq s ++ [item_of i p j])); eauto.
+      * intros Hkp. destruct (Hk _ _ Hn Hkp) as [X|X]; [congruence|auto].
+      * right. rewrite Hpp. reflexivity.
+      * intros _ X. congruence.
+      * intros [Hkp _]. right. apply in_or_app. right. unfold item_of. rewrite Hkp. now left.
+      * destruct (inactive s); reflexivity.
+    + inversion H; subst; clear H.
+      eapply (prod_move_invS s i p (PCas j (head_ptr s)) (enq s)); eauto.
+      * intros Hkp. destruct (Hk _ _ Hn Hkp) as [X|X]; [congruence|auto].
+      * intros [Hkp [X|[o X]]]; rewrite Hpp in X; inversion X; subst. left. split; simpl; eauto.
+  - (* PWrite *)
+    inversion H; subst; clear H.
+    eapply (prod_move_invS s i p (PLoad (S j)) (enq s)); eauto.
+    + intros Hkp. destruct (Hk _ _ Hn Hkp) as [X|X]; [congruence|auto].
+    + intros [Hkp [X|[o X]]]; rewrite Hpp in X; discriminate.
+Qed.
+
+Lemma continue_batch_S s b :
+  enq (continue_batch s b) = enq s /\ prods (continue_batch s b) = prods s /\
+  stopped (continue_batch s b) = stopped s /\ registered (continue_batch s b) = registered s /\
+  (loop (continue_batch s b) = LExec \/ loop (continue_batch s b) = LRet \/ loop (continue_batch s b) = LMarkLoad).
+Proof.
+  unfold continue_batch. destruct (strip_stops b) as [a r]. destruct r; simpl.
+  - destruct (should_stop s || _); simpl; auto 10.
+  - auto 10.
+Qed.
+
+(* a step of the loop that leaves the stop bits, the producers and the queue ghost alone and is
+   neither at nor going to the registration / inline-callback phase *)
+Lemma loop_move_invS s s' :
+  InvS s -> stopped s' = stopped s -> registered s' = registered s -> prods s' = prods s -> enq s' = enq s ->
+  loop s <> LReg -> ~ in_pre (loop s) -> loop s' <> LReg -> ~ in_pre (loop s') -> InvS s'.
+Proof.
+  intros [Hst Hrg Hsp Hk Hpre Hod] E1 E2 E3 E4 N1 N2 N3 N4.
+  constructor; rewrite ?E1, ?E2, ?E3, ?E4; auto.
+  - intros A B. elim N1. auto.
+  - intros A. elim N4. exact A.
+  - intros A. destruct (Hod A) as [X|[X|X]]; auto.
+    exfalso. destruct X as [X|[X|[o X]]]; [now elim N1| |]; elim N2; unfold in_pre; eauto.
+Qed.
+
+Ltac not_pre := let X := fresh in let o := fresh in
+  intros [X|[[o X]|X]]; try discriminate; try (rewrite X in *; discriminate).
+
+Lemma step_loop_invS s s' evs : InvS s -> step_loop s = Some (s', evs) -> InvS s'.
+Proof.
+  intros HI H. pose proof HI as [Hst Hrg Hsp Hk Hpre Hod]. unfold step_loop in H.
+  destruct (loop s) eqn:Hl.
+  - (* LReg *)
+    destruct (stopped s) eqn:Hs; inversion H; subst; clear H.
+    + constructor; simpl; auto.
+      * intros A B. congruence.
+      * intros _. destruct (Hod eq_refl) as [X|[X|X]]; auto. right. left. right. now left.
+    + constructor; simpl; auto.
+      * discriminate.
+      * not_pre.
+      * discriminate.
+  - (* LPreLoad *)
+    inversion H; subst; clear H. constructor; simpl; auto.
+    + intros A B. rewrite Hpre in B; [discriminate|]. left; auto.
+    + intros _. apply Hpre. left; auto.
+    + intros A. destruct (Hod A) as [X|[X|X]]; auto. right. left. right. right. eauto.
+  - (* LPreCas *)
+    assert (Hs : stopped s = true) by (apply Hpre; right; left; eauto).
+    destruct (ptr_eqb (head_ptr s) old).
+    + unfold do_enqueue in H. inversion H; subst; clear H. constructor; simpl; auto.
+      * intros A B. congruence.
+      * intros _. left. apply in_or_app. right. now left.
+    + inversion H; subst; clear H. constructor; simpl; auto.
+      * intros A B. congruence.
+      * intros A. destruct (Hod A) as [X|[X|X]]; auto. right. left. right. right. eauto.
+  - (* LPreWrite *)
+    assert (Hs : stopped s = true) by (apply Hpre; right; right; auto).
+    inversion H; subst; clear H. constructor; simpl; auto.
+    + intros A B. congruence.
+    + intros A. destruct (Hod A) as [X|[X|X]]; auto.
+      destruct X as [X|[X|[o X]]]; discriminate.
+  - (* LExec *)
+    destruct (pending s) as [|it rest]; [discriminate|]. inversion H; subst; clear H.
+    match goal with |- InvS (continue_batch ?x ?y) => destruct (continue_batch_S x y) as (E1 & E2 & E3 & E4 & E5) end.
+    eapply loop_move_invS; eauto; rewrite ?Hl; try discriminate; try not_pre.
+    + destruct E5 as [E|[E|E]]; rewrite E; discriminate.
+    + destruct E5 as [E|[E|E]]; rewrite E; not_pre.
+  - inversion H; subst; clear H.
+    eapply loop_move_invS; eauto; simpl; rewrite ?Hl; try discriminate; try not_pre;
+      destruct (stack s); try discriminate; not_pre.
+  - destruct (stack s); inversion H; subst; clear H;
+      eapply loop_move_invS; eauto; simpl; rewrite ?Hl; try discriminate; not_pre.
+  - inversion H; subst; clear H.
+    match goal with |- InvS (continue_batch ?x ?y) => destruct (continue_batch_S x y) as (E1 & E2 & E3 & E4 & E5) end.
+    eapply loop_move_invS; eauto; rewrite ?Hl; try discriminate; try not_pre.
+    + destruct E5 as [E|[E|E]]; rewrite E; discriminate.
+    + destruct E5 as [E|[E|E]]; rewrite E; not_pre.
+  - destruct (Nat.ltb 0 (efd s)); [|discriminate]. inversion H; subst; clear H.
+    eapply loop_move_invS; eauto; simpl; rewrite ?Hl; try discriminate; not_pre.
+  - inversion H; subst; clear H.
+    eapply loop_move_invS; eauto; simpl; rewrite ?Hl; try discriminate; not_pre.
+  - inversion H; subst; clear H.
+    eapply loop_move_invS; eauto; simpl; rewrite ?Hl; try discriminate; not_pre.
+  - discriminate.
+Qed.
+
+Lemma step_invS t s s' evs : InvS s -> step t s = Some (s', evs) -> InvS s'.
+Proof. destruct t; simpl; [apply step_loop_invS | apply step_prod_invS]. Qed.
+
+Theorem invS_reachable counts nstop pre (sched : list nat) :
+  InvS (fst (run step sched (init counts nstop pre, []))).
+Proof.
+  apply (run_invariant_state _ _ _ step InvS); [|apply invS_init].
+  intros; eapply step_invS; eauto.
+Qed.
